@@ -387,6 +387,7 @@ pub struct Interp {
     pub out: Vec<Line>,
     pending: Option<Vec<Line>>,
     wcfg: WCfg,
+    finish_by_ref: bool,
     writer: Option<Writer<Sink>>,
     sink: Option<Sink>,
     inserted: Vec<Entry>,
@@ -429,6 +430,7 @@ impl Interp {
             out: Vec::new(),
             pending: None,
             wcfg: WCfg::default(),
+            finish_by_ref: false,
             writer: None,
             sink: None,
             inserted: Vec::new(),
@@ -529,7 +531,7 @@ impl Interp {
         *stats.borrow_mut() = vio::SrcStats { low, ..Default::default() };
         if let Some((kind, n, tag)) = &self.src_fault {
             *fault.borrow_mut() =
-                Some(if kind == "seek" { SrcFault::Seek(*n, *tag) } else { SrcFault::ReadAfterSeek(*n, *tag) });
+                Some(if kind == "seek" { SrcFault::Seek(*n, *tag) } else if kind == "seekintr" { SrcFault::SeekIntr(*n, *tag) } else { SrcFault::ReadAfterSeek(*n, *tag) });
         }
         Ok(cursor)
     }
@@ -766,6 +768,15 @@ impl Interp {
                 self.emit0(&format!("usecodec {}", self.wcfg.codec));
                 self.emit0(line);
             }
+            "wsinkwb" => {
+                // write-behind sink: bytes reach the storage only when the writer flushes (C01 / C12: a finished
+                // writer must have flushed what it wrote)
+                if let Some(s) = &self.sink {
+                    s.0.borrow_mut().write_behind = true;
+                }
+                self.finish_by_ref = toks.get(1).copied() == Some("finish");
+                self.emit0(line);
+            }
             "wsched" => {
                 if let Some(s) = &self.sink {
                     s.0.borrow_mut().sched = vio::parse_sched(toks[1]).into();
@@ -813,7 +824,16 @@ impl Interp {
                 let (f1, f2) = match self.writer.take() {
                     None => ("dead".to_string(), "-".to_string()),
                     Some(w) => {
-                        let r = catch_unwind(AssertUnwindSafe(|| w.into_inner()));
+                        let by_ref = self.finish_by_ref;
+                        let keep = self.sink.clone();
+                        let r = catch_unwind(AssertUnwindSafe(|| {
+                            if by_ref {
+                                // `Writer::finish()`: the caller keeps its own handle on the storage
+                                w.finish().map(|()| keep.clone().unwrap())
+                            } else {
+                                w.into_inner()
+                            }
+                        }));
                         match r {
                             Ok(Ok(sink)) => {
                                 let bytes = sink.0.borrow().data.clone();
@@ -874,6 +894,210 @@ impl Interp {
                         let es = self.last_es.clone();
                         self.set_file(v1, es, "v1");
                     }
+                }
+            }
+            "!hugeentry" => {
+                // C14 at the API level with BOTH length prefixes wide: a key of klen and a value of vlen bytes
+                // (e.g. 2^21 and 2^28) written by the real writer and read back by the real reader
+                let klen: usize = toks[1].parse().unwrap_or(0);
+                let vlen: usize = toks[2].parse().unwrap_or(0);
+                let r = catch_unwind(AssertUnwindSafe(|| -> Result<(), String> {
+                    let key: Vec<u8> = (0..klen).map(|i| (i % 251) as u8 | 1).collect();
+                    let val: Vec<u8> = (0..vlen).map(|i| (i % 241) as u8).collect();
+                    let mut w = grenad::Writer::memory();
+                    w.insert(b"", b"x").map_err(|e| e.to_string())?;
+                    w.insert(&key, &val).map_err(|e| e.to_string())?;
+                    let mut last = key.clone();
+                    last.push(0xff);
+                    w.insert(&last, b"tail").map_err(|e| e.to_string())?;
+                    let bytes = w.into_inner().map_err(|e| e.to_string())?;
+                    let rd = grenad::Reader::new(std::io::Cursor::new(bytes)).map_err(|e| e.to_string())?;
+                    let mut c = rd.into_cursor().map_err(|e| e.to_string())?;
+                    let e0 = c.move_on_next().map_err(|e| e.to_string())?.map(|(k, v)| (k.len(), v.len()));
+                    if e0 != Some((0, 1)) { return Err(format!("first_entry_{:?}", e0)); }
+                    match c.move_on_next().map_err(|e| e.to_string())? {
+                        Some((k, v)) if k == &key[..] && v == &val[..] => {}
+                        Some((k, v)) => return Err(format!("entry_of_{}+{}_bytes_read_back_as_{}+{}_bytes_or_altered", klen, vlen, k.len(), v.len())),
+                        None => return Err("entry_lost".into()),
+                    }
+                    match c.move_on_next().map_err(|e| e.to_string())? {
+                        Some((k, v)) if k == &last[..] && v == b"tail" => Ok(()),
+                        other => Err(format!("entry_after_the_wide_one_{:?}", other.map(|(k, v)| (k.len(), v.len())))),
+                    }
+                }));
+                let verdict = match r {
+                    Ok(Ok(())) => "ok".to_string(),
+                    Ok(Err(m)) => { self.oracle_failures += 1; format!("ORACLE-FAIL {}", m.replace(' ', "_")) }
+                    Err(p) => { self.oracle_failures += 1; format!("ORACLE-FAIL panic_{}", panic_name(p)) }
+                };
+                self.emit(line, verdict, "-".into());
+            }
+            "!v1big" => {
+                // C10: the V1 trailer's count is a full u64 next to a hard-wired zero index depth: re-trailer
+                // the last levels = 0 file with counts using every byte; open, len and a full scan must be
+                // those of the V2 file (implementation-only oracle)
+                let b = self.last_file.clone();
+                let es = self.last_es.clone();
+                let mut verdict = "skip".to_string();
+                if let Ok(t) = decode::trailer(&b) {
+                    if t.version == 2 && t.levels == 0 {
+                        verdict = "ok".into();
+                        for count in [1u64 << 32, (1u64 << 40) + 7, 1u64 << 56, 0x0123_4567_89ab_cdef, u64::MAX] {
+                            let mut v1 = b[..b.len() - 22].to_vec();
+                            v1.extend_from_slice(&t.root.to_le_bytes());
+                            v1.push(t.codec);
+                            v1.extend_from_slice(&count.to_le_bytes());
+                            v1.extend_from_slice(&0x76324D4Cu32.to_le_bytes());
+                            let r = catch_unwind(AssertUnwindSafe(|| -> Result<(), String> {
+                                let rd = grenad::Reader::new(std::io::Cursor::new(v1)).map_err(|e| format!("open:{}", e))?;
+                                if rd.len() != count { return Err(format!("len={}_for_stored_count_{}", rd.len(), count)); }
+                                if rd.file_version() != grenad::FileVersion::FormatV1 { return Err("version".into()); }
+                                let mut c = rd.into_cursor().map_err(|e| format!("cursor:{}", e))?;
+                                let mut got: Vec<Entry> = Vec::new();
+                                while let Some((k, v)) = c.move_on_next().map_err(|e| format!("scan:{}", e))? {
+                                    got.push((k.to_vec(), v.to_vec()));
+                                    if got.len() > es.len() + 1 { break; }
+                                }
+                                if got != es { return Err(format!("scan_of_{}_entries_returned_{}", es.len(), got.len())); }
+                                Ok(())
+                            }));
+                            match r {
+                                Ok(Ok(())) => {}
+                                Ok(Err(m)) => { verdict = format!("ORACLE-FAIL v1_count_{}_{}", count, m.replace(' ', "_")); break; }
+                                Err(p) => { verdict = format!("ORACLE-FAIL v1_count_{}_panic_{}", count, panic_name(p)); break; }
+                            }
+                        }
+                    }
+                }
+                if verdict.starts_with("ORACLE") { self.oracle_failures += 1; }
+                self.emit(line, verdict, "-".into());
+            }
+            "truncs" => {
+                let b = self.last_file.clone();
+                let all = toks.get(1).copied() == Some("all");
+                let mut cases: Vec<Vec<u8>> = (0..=b.len()).map(|n| b[..n].to_vec()).collect();
+                let tl = b.len().min(22);
+                for i in 0..tl {
+                    let at = b.len() - tl + i;
+                    if all {
+                        for x in 1..=255u8 {
+                            let mut c = b.clone();
+                            c[at] ^= x;
+                            cases.push(c);
+                        }
+                    } else {
+                        for bit in 0..8 {
+                            let mut c = b.clone();
+                            c[at] ^= 1 << bit;
+                            cases.push(c);
+                        }
+                    }
+                }
+                for c in cases {
+                    self.run_line(&format!("open {}", hex(&c)));
+                }
+            }
+            "!corrupt" => {
+                // C17, read paths on damaged blocks: every single-byte damage (three masks) of the block
+                // region of an uncompressed file; each damaged file is opened and walked under catch_unwind.
+                // The crate may return an error or panic (a clean slice-index panic) but must never abort
+                // the process or hand out a key / value that cannot lie inside the file's bytes.
+                // A damaged length prefix can make an in-block scan spin for ever (zero bytes consumed per
+                // step): that is not a memory-safety matter, so the cases run on a worker thread under a
+                // watchdog and a case that does not come back is counted and abandoned, not reported.
+                let b = self.last_file.clone();
+                let mut cases: Vec<(usize, u8)> = Vec::new();
+                if let Ok(t) = decode::trailer(&b) {
+                    if t.codec == 0 {
+                        let end = (t.root as usize + 8).min(b.len());
+                        for at in 0..end {
+                            for mask in [0x80u8, 0x01, 0x7f] {
+                                cases.push((at, mask));
+                            }
+                        }
+                    }
+                }
+                fn one_case(b: &[u8], at: usize, mask: u8) -> Option<String> {
+                    let mut c = b.to_vec();
+                    c[at] ^= mask;
+                    let flen = c.len();
+                    let r = catch_unwind(AssertUnwindSafe(|| -> Option<String> {
+                        let rd = match grenad::Reader::new(std::io::Cursor::new(c)) { Ok(r) => r, Err(_) => return None };
+                        let mut cur = rd.into_cursor().ok()?;
+                        let mut steps = 0;
+                        let chk = |k: &[u8], v: &[u8]| if k.len() + v.len() > flen { Some(format!("entry_of_{}+{}_bytes_from_a_{}_byte_file", k.len(), v.len(), flen)) } else { None };
+                        while let Ok(Some((k, v))) = cur.move_on_next() {
+                            if let Some(m) = chk(k, v) { return Some(m); }
+                            steps += 1;
+                            if steps > 64 { break; }
+                        }
+                        cur.reset();
+                        steps = 0;
+                        while let Ok(Some((k, v))) = cur.move_on_prev() {
+                            if let Some(m) = chk(k, v) { return Some(m); }
+                            steps += 1;
+                            if steps > 64 { break; }
+                        }
+                        if let Ok(Some((k, v))) = cur.move_on_key_greater_than_or_equal_to([0x61u8]) {
+                            if let Some(m) = chk(k, v) { return Some(m); }
+                        }
+                        None
+                    }));
+                    match r {
+                        Ok(Some(m)) => Some(format!("{}_after_xor_{:#x}_at_{}", m, mask, at)),
+                        _ => None,
+                    }
+                }
+                let total = cases.len();
+                let cases = Arc::new(cases);
+                let data = Arc::new(b);
+                let mut next = 0usize;
+                let mut hangs = 0u64;
+                let mut bad: Option<String> = None;
+                while next < total && bad.is_none() {
+                    let (tx, rx) = std::sync::mpsc::channel::<(usize, Option<String>)>();
+                    let (cs, d, from) = (cases.clone(), data.clone(), next);
+                    std::thread::spawn(move || {
+                        for i in from..cs.len() {
+                            let (at, mask) = cs[i];
+                            let r = one_case(&d, at, mask);
+                            if tx.send((i, r)).is_err() {
+                                return;
+                            }
+                        }
+                    });
+                    loop {
+                        match rx.recv_timeout(std::time::Duration::from_millis(1500)) {
+                            Ok((i, r)) => {
+                                next = i + 1;
+                                if r.is_some() {
+                                    bad = r;
+                                    break;
+                                }
+                                if next >= total {
+                                    break;
+                                }
+                            }
+                            Err(_) => {
+                                // case `next` did not come back: abandon that worker (it dies with the process)
+                                hangs += 1;
+                                next += 1;
+                                break;
+                            }
+                        }
+                    }
+                    if hangs > 8 {
+                        break; // do not pile up spinning threads
+                    }
+                }
+                *self.stats.entry("corrupt_cases".into()).or_insert(0) += next as u64;
+                *self.stats.entry("corrupt_cases_not_terminating".into()).or_insert(0) += hangs;
+                match bad {
+                    Some(m) => {
+                        self.oracle_failures += 1;
+                        self.emit(line, format!("ORACLE-FAIL {}", m), "-".into());
+                    }
+                    None => self.emit(line, "ok".into(), "-".into()),
                 }
             }
             "!hugeentry" => {
@@ -1351,6 +1575,8 @@ impl Interp {
                         *stats.borrow_mut() = vio::SrcStats { low, ..Default::default() };
                         *flt.borrow_mut() = Some(if kind == "seek" {
                             SrcFault::Seek(1 + n / msrcs.len() as u64, *tag)
+                        } else if kind == "seekintr" {
+                            SrcFault::SeekIntr(1 + n / msrcs.len() as u64, *tag)
                         } else {
                             SrcFault::ReadAfterSeek(1 + n / msrcs.len() as u64, *tag)
                         });
@@ -1406,7 +1632,7 @@ impl Interp {
             let (kind, n, tag) = fault.clone().unwrap_or(("seek".into(), 0, 0));
             let nth = 1 + n / (self.msrcs.len().max(1) as u64);
             let reached = fired.borrow().iter().any(|(st, fr)| {
-                if kind == "seek" { st.borrow().seeks >= nth } else { *fr.borrow() }
+                if kind == "seek" || kind == "seekintr" { st.borrow().seeks >= nth } else { *fr.borrow() }
             });
             let expected: Vec<Entry> = {
                 let mut m: std::collections::BTreeMap<Vec<u8>, Vec<Vec<u8>>> = Default::default();
@@ -1722,6 +1948,15 @@ impl Interp {
             Ok(Err(e)) => format!("err {}", e.replace(' ', "_")),
             Err(p) => format!("panic {}", panic_name(p)),
         };
+        // implementation-only oracle (C09): all four readings exist and are exactly the inserted entries
+        let want = fmt_list(&es).replace(' ', "/");
+        let good = f1.starts_with("ok ")
+            && ["old-reads-new=", "new-reads-old=", "dec-new=", "dec-old="].iter().all(|k| f1.contains(&format!("{}{} ", k, want)));
+        if !good {
+            self.oracle_failures += 1;
+            self.emit(line, format!("ORACLE-FAIL interop_matrix_with_grenad_0.4.7_is_not_the_inserted_entries:_{}", f1.chars().take(160).collect::<String>().replace(' ', "_")), "-".into());
+            return;
+        }
         self.emit(line, f1, "-".into());
     }
 }
